@@ -638,6 +638,52 @@ impl TextBig {
     }
 }
 
+impl TextBig {
+    /// 130 tokens a side, the first `shared` in common, everything else different: more than 255
+    /// different tokens in total (integer ids must not run out / wrap).
+    fn run_disjoint(&self, s: &BigShape) -> String {
+        let shared = s.skel - 1000;
+        let n = 130;
+        let head: Vec<Sym> = (0..shared).map(|_| symtxt::fresh_char(symtxt::Class::Ord)).collect();
+        let o_tail: Vec<Sym> = (0..n - shared).map(|_| symtxt::fresh_char(symtxt::Class::Ord)).collect();
+        let n_tail: Vec<Sym> = (0..n - shared).map(|_| symtxt::fresh_char(symtxt::Class::Ord)).collect();
+        let ids: Vec<u32> = head.iter().chain(o_tail.iter()).chain(n_tail.iter()).map(|x| x.0).collect();
+        engine::assume(&F::Distinct(ids.clone()));
+        for id in ids {
+            engine::set_hash_class(id, id as u64);
+        }
+        let old: Vec<Sym> = head.iter().chain(o_tail.iter()).copied().collect();
+        let new: Vec<Sym> = head.iter().chain(n_tail.iter()).copied().collect();
+        let (ot, nt) = (SymTxt::new(&old), SymTxt::new(&new));
+        let shape = Shape { old: String::new(), new: String::new(), tok: Tok::Chars, alg: s.alg, nl_override: None };
+        let diff = make_diff(&shape, ot, nt);
+        let olds = diff.old_slices().to_vec();
+        let news = diff.new_slices().to_vec();
+        let ops = diff.ops().to_vec();
+        engine::witness("paths_above_the_threshold");
+        engine::witness("paths_with_more_than_255_different_tokens");
+        engine::witness("paths_with_changes");
+        match self.0 {
+            1 => {
+                let all: Vec<Change<&SymTxt>> = diff.iter_all_changes().collect();
+                check_changes(&all, &olds, &news, "iter_all_changes (260 different tokens)");
+            }
+            2 => {
+                let helper: Vec<(ChangeTag, &SymTxt)> = similar::utils::diff_chars(s.alg, ot, nt);
+                check_slices(&helper, &old, &new, "utils::diff_chars (260 different tokens)");
+                let ds: Vec<(ChangeTag, &[Sym])> = similar::utils::diff_slices(s.alg, &old[..], &new[..]);
+                let conv: Vec<(ChangeTag, &SymTxt)> = ds.iter().map(|(t, x)| (*t, SymTxt::new(x))).collect();
+                check_slices(&conv, &old, &new, "utils::diff_slices (260 different items)");
+            }
+            _ => {
+                let direct = capture_diff_slices(s.alg, &olds, &news);
+                claim!(ops == direct, "with 130 / 130 mostly different tokens the text diff ops differ from capture_diff_slices over the same tokens: {:?} vs {:?}", ops, direct);
+            }
+        }
+        format!("{:?}", ops)
+    }
+}
+
 impl Prop for TextBig {
     type Shape = BigShape;
     fn id(&self) -> &'static str {
@@ -683,6 +729,13 @@ impl Prop for TextBig {
                 cur = nx;
             }
         }
+        // mostly different mid-sized inputs: 130 tokens a side, only the first `shared` ones in
+        // common, more than 255 different tokens in total (encoded as skel = 1000 + shared)
+        for alg in ALGS {
+            for shared in [0usize, 3] {
+                v.push(BigShape { alg, tok: Tok::Chars, skel: 1000 + shared, old_extra: vec![], new_extra: vec![] });
+            }
+        }
         for alg in ALGS {
             if alg == Algorithm::Lcs && tier == Tier::Quick {
                 continue;
@@ -720,6 +773,9 @@ impl Prop for TextBig {
     fn run(&self, s: &BigShape) -> String {
         reset_hooks();
         symtxt::reset();
+        if s.skel >= 1000 {
+            return self.run_disjoint(s);
+        }
         // skeleton tokens: pairwise different (one z3 distinct over their first characters),
         // each with its own hash class; fresh extras share one class and are assumed to
         // differ from every skeleton token, so the class-based Hash is lawful.
@@ -866,10 +922,10 @@ impl Prop for TextBig {
                 "similar::TextDiffConfig::diff (the `old.len() > 100 || new.len() > 100` branch): IdentifyDistinct::<u32>::new over &SymTxt tokens + capture_diff_deadline over the integer lookups",
                 "similar::capture_diff_slices over the same tokens (the reference)",
             ],
-            bounds: format!("token counts on both sides of the threshold: a shared skeleton of 99 / 100 / 101 / 103 pairwise-different tokens plus up to 2 extra tokens at the front / middle / end of either side ({}), each extra either a fresh symbolic token or a copy of the first / middle / last skeleton token; plus tails of up to three tokens over (copy of the first skeleton token, one shared fresh token) appended to both sides; char tokens and line tokens; 3 algorithms (LCS and line tokens: at most one extra)", match tier { Tier::Quick => "a third of the two-extra combinations", Tier::Thorough => "all two-extra combinations" }),
+            bounds: format!("token counts on both sides of the threshold: a shared skeleton of 99 / 100 / 101 / 103 pairwise-different tokens plus up to 2 extra tokens at the front / middle / end of either side ({}), each extra either a fresh symbolic token or a copy of the first / middle / last skeleton token; plus two inputs of 130 tokens a side with more than 255 different tokens in total; plus tails of up to three tokens over (copy of the first skeleton token, one shared fresh token) appended to both sides; char tokens and line tokens; 3 algorithms (LCS and line tokens: at most one extra)", match tier { Tier::Quick => "a third of the two-extra combinations", Tier::Thorough => "all two-extra combinations" }),
             outside: "fresh extra tokens are assumed different from every skeleton token (coinciding is covered only by the explicit 'copy' kinds); unstructured inputs above the threshold (path explosion); other tokenizers above the threshold (the code path does not depend on the tokenizer)".into(),
             assumptions: vec!["class-based Hash for this family (skeleton token i -> i, fresh tokens -> one class), lawful under the stated assumption".into()],
-            required_witnesses: vec!["paths_above_the_threshold", "paths_at_or_below_the_threshold", "paths_with_changes"],
+            required_witnesses: vec!["paths_above_the_threshold", "paths_at_or_below_the_threshold", "paths_with_changes", "paths_with_more_than_255_different_tokens"],
             rule: "one state = one explored path for one skeleton shape".into(),
         }
     }
